@@ -2216,6 +2216,25 @@ impl DB {
             }
         }
 
+        /*
+        The loop above can end because of a background error or a shutdown while the compaction
+        thread is in the middle of this very request (it releases the mutex while it compacts and
+        consumes the request when it is done). Let it finish before the request is withdrawn:
+        otherwise the compaction thread finds the request gone and panics with its task still marked
+        as scheduled.
+        */
+        while db_fields_guard.background_compaction_scheduled
+            && db_fields_guard
+                .maybe_manual_compaction
+                .as_ref()
+                .map_or(false, |registered| {
+                    Arc::ptr_eq(&wrapped_manual_compaction, registered)
+                })
+        {
+            self.background_work_finished_signal
+                .wait(&mut db_fields_guard);
+        }
+
         if db_fields_guard.maybe_manual_compaction.is_some()
             && Arc::ptr_eq(
                 &wrapped_manual_compaction,
